@@ -112,6 +112,27 @@ def main():
                     problems.append('chunks outside the tail zone depend on the segmentation')
                 if problems:
                     failures.append({'id': f'big_m{m}M{M}P{P}', 'class': None, 'case': {'m': m, 'M': M, 'n': len(data), 'segments': [len(x) for x in segs]}, 'detail': problems})
+    # LARGE maximum lengths (above the default 5 120 000): thresholds derived from the DEFAULT instead of the configured maximum show only here
+    huge = random.Random(seed + 78).randbytes(30_000_000 + 3)
+    for (m, M) in ((1_000_000, 8_000_000), (4_000_000, 12_000_000)):
+        ref = None
+        for piece in (3_500_001, 2 ** 24, len(huge)):
+            segs = [huge[j:j + piece] for j in range(0, len(huge), piece)]
+            cases += 1
+            distinct.add((m, M, len(huge), None, piece))
+            out, problems = check(m, M, None, huge, segs)
+            lens, pos = [], 0
+            for c in out:
+                if len(huge) - pos >= 2 * M:
+                    lens.append(len(c))
+                pos += len(c)
+            if ref is None:
+                ref = lens
+            elif ref[:min(len(ref), len(lens))] != lens[:min(len(ref), len(lens))]:
+                problems.append('chunks outside the tail zone depend on the segmentation')
+            if problems:
+                failures.append({'id': f'huge_m{m}M{M}P{piece}', 'class': None, 'case': {'m': m, 'M': M, 'n': len(huge), 'piece': piece}, 'detail': problems[:4]})
+    del huge
     # INTERLEAVED runs (two snapshots in one process, a run abandoned half way): each run's output is a function of its own bytes
     # and parameters only - never of other runs, whether on the same adapter object or on another one
     for (m, M) in ((8, 64), (64, 256)):
